@@ -4,6 +4,10 @@ import OtelVerif.Lemmas.C20Mon
 import OtelVerif.Lemmas.C20Bridge
 import OtelVerif.Lemmas.C20Expand
 import OtelVerif.Lemmas.C20Safe
+import OtelVerif.Lemmas.C20Fsm
+import OtelVerif.Lemmas.C20Sig
+import OtelVerif.Lemmas.C20Live
+import OtelVerif.Lemmas.C20FsmLog
 /-!
 # C20 — collector run loop: one live service at a time, orderly reload, ends Closed
 
@@ -560,5 +564,435 @@ the collector starts; the change is received first, the reload completes, the er
 example : (run .fixed [.begin, .step true, .step true, .post .watchOk, .post .watchErr, .step true, .step true, .pick .watchOk,
     .step true, .step true, .step true, .step true, .step true, .step true]).map (fun s => (s.pc, s.gen, s.nWatchOk, s.nWatchErr)) =
     some (.select, 2, 0, 1) := by decide
+
+/-! ## Round 2 (second session): the lifecycle FSM, and the model's statements tied to the regenerated source facts
+
+`Gen/CollectorFsm.lean` is rewritten from `otelcol/collector.go` by the translator `collectorfsm` on every run. The
+left-hand sides below are COMPUTED FROM THE MODEL (`stepRun`/`pickEv` executed on probe states, their event logs read
+back — `Lemmas/C20Fsm.lean`), the right-hand sides are the regenerated data: moving, adding or dropping a
+`setCollectorState`, reordering the calls of `setupConfigurationComponents` / `reloadConfiguration` / `shutdown`,
+changing what a select branch does or the guard of `Shutdown()` makes these stop checking. -/
+
+/-- the State constants, the state `NewCollector` stores, and: nothing but `NewCollector` and `setCollectorState` writes
+the state word -/
+theorem C20_state_consts_match_source :
+    Gen.CollectorFsm.stateConsts = [CState.starting, .running, .closing, .closed].map CState.name ∧
+    Gen.CollectorFsm.initialState = init.st.name ∧
+    Gen.CollectorFsm.rawStateWriters = ["Collector.setCollectorState", "NewCollector"] := by decide
+
+/-- every `setCollectorState(X)` of the source is a state-storing statement of the model, same function, same state,
+same order, and the model has no other; `sourcePcs` lists every program point that has a statement (the `rl` flag of the
+set-up points does not change what the statement stores) -/
+theorem C20_set_state_sites_match_source :
+    modelSetSites = Gen.CollectorFsm.setSites ∧
+    (∀ pc : Pc, pc = .idle ∨ pc = .select ∨ pc = .done ∨
+      (pc.unrl ∈ sourcePcs ∧ pc.unrl.func = pc.func ∧ pc.unrl.effects true = pc.effects true ∧
+        pc.unrl.effects false = pc.effects false)) := by
+  refine ⟨by decide, ?_⟩
+  intro pc
+  cases pc with
+  | idle => simp
+  | select => simp
+  | done => simp
+  | setup1 rl => cases rl <;> decide
+  | setup2 rl => cases rl <;> decide
+  | setup3 rl => cases rl <;> decide
+  | setupSd rl => cases rl <;> decide
+  | setup4 rl => cases rl <;> decide
+  | initFail => decide
+  | reload1 => decide
+  | reload2 => decide
+  | shut1 => decide
+  | shut2 => decide
+  | shut3 => decide
+  | shut4 => decide
+
+/-- the calls that matter, in the order the source makes them: straight path and error branch of
+`setupConfigurationComponents` (a failed `service.Start` is followed by `service.Shutdown` of that service, nothing else),
+`reloadConfiguration` (Closing; the retiring `service.Shutdown`; only then set-up), `shutdown` (Closing; providers; service;
+Closed), `Run` (set-up; `setCollectorState(Closed)` only on the failure branch) -/
+theorem C20_call_order_matches_source :
+    straight 8 (.setup1 false) = genSeq "Collector.setupConfigurationComponents" 0 ∧
+    Pc.effects (.setupSd false) true = genSeq "Collector.setupConfigurationComponents" 1 ∧
+    genSeq "Collector.setupConfigurationComponents" 2 = [] ∧
+    straight 8 .reload1 = genSeq "Collector.reloadConfiguration" 0 ∧
+    genSeq "Collector.reloadConfiguration" 1 = [] ∧
+    straight 8 .shut1 = genSeq "Collector.shutdown" 0 ∧
+    genSeq "Collector.shutdown" 1 = [] ∧
+    genSeq "Collector.Run" 0 = ["call:setup"] ∧
+    genSeq "Collector.Run" 1 = Pc.effects .initFail true := by decide
+
+/-- `DryRun` and `GetState` perform none of the modelled effects (no state store, no service created/started/shut down, no
+provider shutdown): they are not labels of the LTS because they change nothing it tracks; `Shutdown()` does exactly one
+thing, the guarded `close(shutdownChan)` (`Label.call`/`Label.close`) -/
+theorem C20_dry_run_and_shutdown_effects_match_source :
+    (∀ d ∈ [0, 1, 2, 3], genSeq "Collector.DryRun" d = [] ∧ genSeq "Collector.GetState" d = []) ∧
+    Gen.CollectorFsm.callSeq.lookup "Collector.DryRun" =
+      some [(0, "Factories"), (0, "provider.Get"), (0, "Validate"), (0, "service.Validate")] ∧
+    Gen.CollectorFsm.callSeq.lookup "Collector.Shutdown" = some [(1, "close:shutdownChan")] := by decide
+
+/-- what each branch of Run's select does (stop = towards `col.shutdown`, reload = `reloadConfiguration`, return on error),
+read from the model, equals what the source does; after the loop comes `col.shutdown` -/
+theorem C20_select_branches_match_source :
+    modelBranches = genBranches ∧ Gen.CollectorFsm.afterLoop = "stop" := by decide
+
+/-- the one branch that is taken BECAUSE the context is done shuts down with a fresh context (`context.Background()`), so the
+final `service.Shutdown` / `configProvider.Shutdown` are not handed an already-cancelled context; every other branch passes
+Run's own context on (regenerated; the model's `shut2`/`shut3` steps are the same program points for both) -/
+theorem C20_ctx_branch_shuts_down_with_background_context :
+    Gen.CollectorFsm.selectBranches.lookup "ctx.Done()" = some ("", "stop-background-ctx", "stop-background-ctx") ∧
+    (∀ b ∈ Gen.CollectorFsm.selectBranches, b.1 ≠ "ctx.Done()" → b.2.2.1 ≠ "stop-background-ctx" ∧ b.2.2.2 ≠ "stop-background-ctx") := by
+  decide
+
+/-- the guard of `Shutdown()` in the source is the guard of `Variant.fixed`, state by state (truth table regenerated) -/
+theorem C20_shutdown_guard_matches_source (c : CState) :
+    Variant.fixed.honours c = Gen.CollectorFsm.guardHonours.contains c.name := by
+  cases c <;> decide
+
+/-- … and it is NOT the pinned guard (the defect `C20_shutdown_not_lost_pinned_fails` is about a guard the source no longer has) -/
+theorem C20_shutdown_guard_is_not_pinned :
+    ∃ c : CState, Variant.pinned.honours c ≠ Gen.CollectorFsm.guardHonours.contains c.name := ⟨.closing, by decide⟩
+
+/-- **Every transition is in the documented FSM.** In every reachable state, whatever label fires (any goroutine): the
+state word stays or moves along an edge of `fsmEdge` (Starting→Running→Closing→Closed, Closing→Starting for a reload,
+Starting→Closed for a failed initial set-up); and only statements of the Run goroutine move it. -/
+theorem C20_every_transition_in_fsm (v : Variant) (s s' : S) (l : Label) (h : Reachable v s) (hf : fire v s l = some s') :
+    (s'.st = s.st ∨ fsmEdge s.st s'.st = true) ∧ ((∀ ok, l ≠ .step ok) → s'.st = s.st) := by
+  refine ⟨?_, fun hl => st_external v hf hl⟩
+  by_cases hl : ∃ ok, l = .step ok
+  · obtain ⟨ok, rfl⟩ := hl
+    simp only [fire] at hf
+    exact st_step (inv_reachable h) hf
+  · left; exact st_external v hf (fun ok h => hl ⟨ok, h⟩)
+
+/-- the whole history of the state word of any run, from `NewCollector`'s Starting, is a (stuttering) path of the FSM -/
+theorem C20_state_history_is_fsm_path (v : Variant) (ls : List Label) : fsmPath .starting (stHist v init ls) :=
+  stHist_path v ls init inv_init
+
+/-- soundness of the driver's oracle `prop fsm` (`fsmTraceBad` over the state word the implementation showed, one sample per
+change): if it accepts, the samples form a path of the FSM and every consecutive pair is an edge -/
+theorem C20_fsm_check_sound (a : CState) (cs : List CState) (h : fsmTraceBad (a :: cs) = none) :
+    fsmStrict (a :: cs) ∧ fsmPath a cs :=
+  ⟨fsmTraceBad_none _ h, fsmStrict_path a cs (fsmTraceBad_none _ h)⟩
+
+/-- … in the form the driver applies it to an event log (`fsmLogBad`: the `st` samples, from `NewCollector`'s Starting,
+repeated consecutive samples dropped): an accepted log's state changes are all edges of the FSM -/
+theorem C20_fsm_log_check_sound (log : List TEv) (h : fsmLogBad log = none) :
+    fsmStrict (dedupAdj (.starting :: log.filterMap TEv.stOf)) :=
+  fsmTraceBad_none _ h
+
+/-- **Bridge for the lifecycle oracle**: the event log of EVERY reachable state of the model (either variant, any
+interleaving) is accepted by `fsmLogBad` — the oracle judging the real collector's sampled state word cannot alarm on
+behaviour the LTS allows, and the state-level theorem `C20_every_transition_in_fsm` and the judgement on real logs are about
+the same thing -/
+theorem C20_model_state_trace_accepted (v : Variant) (s : S) (h : Reachable v s) : fsmLogBad s.log = none := by
+  obtain ⟨ls, h⟩ := h
+  have hl := logInv_runFrom v ls inv_init logInv_init h
+  exact loose_dedup_ok _ hl.path
+
+/-- the oracle is not vacuous: it accepts start / reload / shutdown, rejects Running → Starting (a reload that skipped
+Closing) and Running → Closed (a shutdown that skipped Closing) -/
+example : fsmTraceBad [.starting, .running, .closing, .starting, .running, .closing, .closed] = none ∧
+    fsmTraceBad [.starting, .running, .starting] = some (.running, .starting) ∧
+    fsmTraceBad [.starting, .running, .closed] = some (.running, .closed) := by decide
+
+/-- Closed is terminal: once the state word is Closed no label of any goroutine changes it -/
+theorem C20_closed_is_terminal (v : Variant) (s s' : S) (l : Label) (h : Reachable v s) (hc : s.st = .closed)
+    (hf : fire v s l = some s') : s'.st = .closed := by
+  have hi := inv_reachable h
+  have hd : s.pc = .done := hi.closedDone (by simpa [S.core] using hc)
+  by_cases hl : ∃ ok, l = .step ok
+  · obtain ⟨ok, rfl⟩ := hl
+    simp [fire, stepRun, hd] at hf
+  · rw [st_external v hf (fun ok h => hl ⟨ok, h⟩)]; exact hc
+
+/-- witnesses: a run and a label whose firing moves the state word along the given edge -/
+def edgeWitness : CState → CState → List Label × Label
+  | .starting, .starting => ([.begin], .step true)
+  | .starting, .running => ([.begin, .step true, .step true, .step true], .step true)
+  | .running, .closing => ([.begin, .step true, .step true, .step true, .step true, .post .hup, .pick .hup], .step true)
+  | .closing, .starting =>
+    ([.begin, .step true, .step true, .step true, .step true, .post .hup, .pick .hup, .step true, .step true], .step true)
+  | .closing, .closed =>
+    ([.begin, .step true, .step true, .step true, .step true, .call, .close, .pick .shutdown, .step true, .step true, .step true],
+     .step true)
+  | .starting, .closed => ([.begin, .step true, .step false], .step true)
+  | _, _ => ([], .begin)
+
+def realises (a b : CState) : Bool :=
+  ((run .fixed (edgeWitness a b).1).bind (fun s => (fire .fixed s (edgeWitness a b).2).map (fun s' => (s.st, s'.st)))) == some (a, b)
+
+/-- no edge of `fsmEdge` is superfluous: each is taken by some reachable transition (so `C20_every_transition_in_fsm`
+could not be stated with a smaller relation) -/
+theorem C20_fsm_edges_all_realised (a b : CState) (h : fsmEdge a b = true) :
+    ∃ s s' l, Reachable .fixed s ∧ fire .fixed s l = some s' ∧ s.st = a ∧ s'.st = b := by
+  have hr : realises a b = true := by cases a <;> cases b <;> first | (simp [fsmEdge] at h; done) | decide
+  simp only [realises, beq_iff_eq] at hr
+  cases h1 : run .fixed (edgeWitness a b).1 with
+  | none => simp [h1] at hr
+  | some s =>
+    simp only [h1, Option.bind_some] at hr
+    cases h2 : fire .fixed s (edgeWitness a b).2 with
+    | none => simp [h2] at hr
+    | some s' =>
+      simp only [h2, Option.map_some, Option.some.injEq, Prod.mk.injEq] at hr
+      exact ⟨s, s', _, ⟨_, h1⟩, h2, hr.1, hr.2⟩
+
+/-- non-vacuity of `C20_every_transition_in_fsm` / `C20_state_history_is_fsm_path`: a start, a reload, a shutdown -/
+example : stHist .fixed init [.begin, .step true, .step true, .step true, .step true, .post .hup, .pick .hup, .step true,
+    .step true, .step true, .step true, .step true, .step true, .call, .close, .pick .shutdown, .step true, .step true, .step true, .step true] =
+    [.starting, .starting, .starting, .starting, .running, .running, .running, .closing, .closing, .starting, .starting, .starting,
+     .running, .running, .running, .running, .closing, .closing, .closing, .closed] := by decide
+
+
+/-! ## Round 2 (second session): OS signals in front of the run loop (`Model/C20Sig.lean`)
+
+`signal.Notify` / `signal.Stop` / `DisableGracefulShutdown` / the capacity of `signalsChannel` were "OS signal delivery,
+outside" so far: the core LTS starts at "a signal entered the channel". The layer `fireS` models the code in between — the
+registrations of `Run` (regenerated), the non-blocking hand-over of os/signal into a FIFO channel of the regenerated
+capacity — and is tied by an exact differential with REAL signals (`syscall.Kill` to the test process, harness `signals`). -/
+
+/-- the regenerated registrations are of the shape the model knows, and mean: SIGHUP always; SIGINT and SIGTERM unless
+`DisableGracefulShutdown`; `signal.Stop` deferred; channel capacities as the model assumes them (signals 3, async error
+unbuffered, shutdown channel unbuffered = only ever closed, resolver watcher 1) -/
+theorem C20_sig_registrations_match_source :
+    notifySet false = [.hup, .int, .term] ∧ notifySet true = [.hup] ∧ sigCap = 3 ∧
+    (∀ p ∈ Gen.CollectorFsm.runNotify, (notifyCond false p.1).isSome = true ∧ ∀ n ∈ p.2, (Sig.ofGoName n).isSome = true) ∧
+    Gen.CollectorFsm.signalStopDeferred = true ∧
+    Gen.CollectorFsm.chanCaps =
+      [("shutdownChan", 0), ("signalsChannel", 3), ("asyncErrorChannel", 0), ("resolver.watcher", 1)] := by decide
+
+/-- **Refinement.** Whatever the operating system delivers, in whatever order, interleaved with everything else: the run
+loop underneath only makes moves of the LTS of `Model/C20.lean` — so every theorem above (`C20_no_overlap`, `C20_ends_closed`,
+`C20_stop_returns`, `C20_shutdown_not_lost`, `C20_every_transition_in_fsm`, …) holds of `ss.core` for every reachable `ss`. -/
+theorem C20_sig_layer_refines_run_loop (dg : Bool) (ss : SS) (h : ReachableS dg ss) : Reachable .fixed ss.core := by
+  obtain ⟨ls, h⟩ := h
+  exact (reachS_inv dg ls (initS dg) ss ⟨[], rfl⟩ (sinv_init dg) rfl h).1
+
+/-- the channel never holds more than its capacity, and the core model's counters are exactly its content -/
+theorem C20_sig_channel_within_capacity (dg : Bool) (ss : SS) (h : ReachableS dg ss) :
+    ss.q.length ≤ 3 ∧ ss.core.nHup + ss.core.nTerm = ss.q.length ∧ ss.core.nHup = ss.q.count .hup ∧
+    ∀ sg ∈ ss.q, sg ∈ notifySet dg := by
+  obtain ⟨ls, h⟩ := h
+  obtain ⟨_, hi, hd⟩ := reachS_inv dg ls (initS dg) ss ⟨[], rfl⟩ (sinv_init dg) rfl h
+  exact ⟨by have := hi.cap; rw [sigCap_eq] at this; exact this, hi.total, hi.hupCount, by rw [← hd]; exact hi.regd⟩
+
+/-- `signalsChannel` is registered exactly from the moment Running is first reached until Run returns; outside that window
+(before and during the initial set-up, after Run returned) a signal never reaches the collector: the only effect of `os sg`
+is the `ignored` counter -/
+theorem C20_sig_registered_exactly_while_running (dg : Bool) (ss : SS) (h : ReachableS dg ss) :
+    (ss.notified = if (ss.core.everRunning = true ∧ ss.core.pc ≠ .done) then notifySet dg else []) ∧
+    ((ss.core.everRunning = false ∨ ss.core.pc = .done) → ∀ sg, fireS ss (.os sg) = some { ss with ignored := ss.ignored + 1 }) := by
+  obtain ⟨ls, h⟩ := h
+  obtain ⟨_, hi, hd⟩ := reachS_inv dg ls (initS dg) ss ⟨[], rfl⟩ (sinv_init dg) rfl h
+  have hn := hi.notif
+  rw [hd] at hn
+  refine ⟨hn, ?_⟩
+  intro hw sg
+  have : ss.notified = [] := by
+    rw [hn]; rcases hw with hw | hw <;> simp [hw]
+  simp [fireS, this]
+
+/-- **`DisableGracefulShutdown`.** With the setting on, no SIGINT/SIGTERM ever enters the channel and no run is ever stopped
+by a termination signal — whatever the OS delivers, whenever -/
+theorem C20_sigterm_cannot_stop_when_graceful_shutdown_disabled (ss : SS) (h : ReachableS true ss) :
+    ss.core.nTerm = 0 ∧ ss.core.stop ≠ some .term ∧ ∀ sg ∈ ss.q, sg = .hup := by
+  obtain ⟨ls, h⟩ := h
+  obtain ⟨_, hi, hd⟩ := reachS_inv true ls (initS true) ss ⟨[], rfl⟩ (sinv_init true) rfl h
+  have hall : ∀ sg ∈ ss.q, sg = .hup := by
+    intro sg hsg
+    have := hi.regd sg hsg
+    rw [hd, notifySet_true] at this
+    simpa using this
+  have hc : ss.q.count .hup = ss.q.length := List.count_eq_length.2 (fun a ha => (hall a ha).symm ▸ rfl)
+  have h1 := hi.hupCount
+  have h2 := hi.total
+  exact ⟨by omega, hi.noTermStop hd, hall⟩
+
+/-- **A termination signal stops the collector** (graceful shutdown enabled): while the Run goroutine is in the select with an
+empty signal channel, a SIGINT or SIGTERM delivered by the OS enters the channel, the select can receive it, and receiving
+it leaves the loop with stop reason `term` — from there `C20_stop_returns` and `C20_ends_closed` (through
+`C20_sig_layer_refines_run_loop`): Run returns, Closed, service and providers shut down exactly once. -/
+theorem C20_termination_signal_stops (ss : SS) (h : ReachableS false ss) (hpc : ss.core.pc = .select) (hq : ss.q = [])
+    (sg : Sig) (hsg : sg = .int ∨ sg = .term) :
+    ∃ ss1 ss2, fireS ss (.os sg) = some ss1 ∧ fireS ss1 (.core (.pick .term)) = some ss2 ∧
+      ss2.core.stop = some .term ∧ ss2.core.pc = .shut1 ∧ ss2.q = [] := by
+  have hreach := C20_sig_layer_refines_run_loop false ss h
+  have hever : ss.core.everRunning = true := by
+    have := (inv_reachable hreach).ever; simp only [S.core] at this
+    exact this (by simp [hpc, Pc.initialPhase]) (by simp [hpc])
+  have hn := (C20_sig_registered_exactly_while_running false ss h).1
+  simp only [hever, hpc, notifySet_false] at hn
+  have hmem : sg ∈ ss.notified := by rw [hn]; rcases hsg with rfl | rfl <;> simp
+  have hev : sg.ev = .term := by rcases hsg with rfl | rfl <;> rfl
+  have hne : sg ≠ .hup := by rcases hsg with rfl | rfl <;> simp
+  have h1 : fireS ss (.os sg) = some { ss with core := { ss.core with nTerm := ss.core.nTerm + 1 }, q := [sg] } := by
+    simp [fireS, hmem, hq, sigCap_eq, hev, fire, postEv]
+  cases h2 : fireS { ss with core := { ss.core with nTerm := ss.core.nTerm + 1 }, q := [sg] } (.core (.pick .term)) with
+  | none => simp [fireS, sigGuard, hne, fire, hpc, pickEv] at h2
+  | some ss2 =>
+    refine ⟨_, ss2, h1, h2, ?_⟩
+    simp [fireS, sigGuard, hne, fire, hpc, pickEv, SS.upd, leave, S.emit] at h2
+    subst h2
+    exact ⟨rfl, rfl, rfl⟩
+
+/-- **SIGHUP reloads**, whatever `DisableGracefulShutdown` says: in the select with an empty channel a SIGHUP enters the
+channel and its receive starts `reloadConfiguration` -/
+theorem C20_sighup_reloads (dg : Bool) (ss : SS) (h : ReachableS dg ss) (hpc : ss.core.pc = .select) (hq : ss.q = []) :
+    ∃ ss1 ss2, fireS ss (.os .hup) = some ss1 ∧ fireS ss1 (.core (.pick .hup)) = some ss2 ∧
+      ss2.core.pc = .reload1 ∧ ss2.core.stop = ss.core.stop ∧ ss2.q = [] := by
+  have hreach := C20_sig_layer_refines_run_loop dg ss h
+  have hever : ss.core.everRunning = true := by
+    have := (inv_reachable hreach).ever; simp only [S.core] at this
+    exact this (by simp [hpc, Pc.initialPhase]) (by simp [hpc])
+  have hn := (C20_sig_registered_exactly_while_running dg ss h).1
+  simp only [hever, hpc] at hn
+  have hmem : Sig.hup ∈ ss.notified := by rw [hn]; cases dg <;> simp [notifySet_true, notifySet_false]
+  have h1 : fireS ss (.os .hup) = some { ss with core := { ss.core with nHup := ss.core.nHup + 1 }, q := [.hup] } := by
+    simp [fireS, hmem, hq, sigCap_eq, Sig.ev, fire, postEv]
+  cases h2 : fireS { ss with core := { ss.core with nHup := ss.core.nHup + 1 }, q := [.hup] } (.core (.pick .hup)) with
+  | none => simp [fireS, sigGuard, fire, hpc, pickEv] at h2
+  | some ss2 =>
+    refine ⟨_, ss2, h1, h2, ?_⟩
+    simp [fireS, sigGuard, fire, hpc, pickEv, SS.upd] at h2
+    subst h2
+    exact ⟨rfl, rfl, rfl⟩
+
+/-- non-vacuity (= corpus cases of the harness `signals`): graceful shutdown disabled — SIGTERM while Running is ignored,
+SIGHUP reloads; four signals during the reload: three enter, the fourth is dropped -/
+example : (runS true ([.core .begin] ++ (List.replicate 4 (.core (.step true))) ++ [.os .term, .os .hup, .core (.pick .hup),
+    .core (.step true), .os .hup, .os .hup, .os .hup, .os .hup])).map
+    (fun ss => (ss.core.pc, ss.core.st, ss.q, ss.dropped, ss.ignored, ss.core.nTerm)) =
+    some (.reload2, .closing, [.hup, .hup, .hup], 1, 1, 0) := by decide
+
+/-- … enabled: a signal before Running is reached never arrives; SIGINT while Running stops the run; after Run returned
+nothing is registered any more -/
+example : (runS false ([.os .term, .core .begin] ++ (List.replicate 4 (.core (.step true))) ++ [.os .int, .core (.pick .term)] ++
+    (List.replicate 4 (.core (.step true))) ++ [.os .hup])).map
+    (fun ss => (ss.core.st, ss.core.stop == some .term, ss.notified.length, ss.q.length, ss.ignored)) =
+    some (.closed, true, 0, 0, 2) := by decide
+
+
+/-! ## Round 2 (second session): a `Shutdown()` made in ANY state — before `Run`, during the first Starting, during a reload,
+while Running — is honoured (the hypothesis "after Running was reached" of `C20_shutdown_not_lost` / `C20_shutdown_honoured`
+removed) -/
+
+/-- **Honoured from any state** (repaired guard). Take any state (reachable or not) whose state word is not Closed — `Run` not yet
+called, the initial set-up in progress, Running, a reload in progress, the final shutdown in progress. A `Shutdown()` call
+passes the guard there, and from then on, along EVERY continuation (any interleaving, any outcomes, any number of reloads):
+the channel is closed or a caller is about to close it; the system is never at rest; and whenever the Run goroutine is in the
+select with the channel closed it can take the shutdown branch, which leaves the loop (`C20_stop_returns`, `C20_ends_closed`).
+In the remaining state, Closed, Run has already returned (`Inv.closedDone`). -/
+theorem C20_shutdown_in_any_state_honoured (s s1 : S) (hst : s.st ≠ .closed)
+    (hc : fire .fixed s .call = some s1) :
+    s1.closers = s.closers + 1 ∧
+    ∀ ls s2, runFrom .fixed s1 ls = some s2 →
+      (s2.chanClosed = true ∨ s2.closers > 0) ∧ ¬ Quiescent s2 ∧
+      (s2.pc = .select → s2.chanClosed = true →
+        ∃ s3, fire .fixed s2 (.pick .shutdown) = some s3 ∧ s3.stop = some .shutdown ∧ s3.pc = .shut1) := by
+  have hh : Variant.fixed.honours s.st = true := by cases hs : s.st <;> simp_all [Variant.honours]
+  simp only [fire, S.emit, hh, if_true, Option.some.injEq] at hc
+  subst hc
+  refine ⟨rfl, ?_⟩
+  intro ls s2 hr
+  have hp := pending_runFrom .fixed ls hr (Or.inr (Nat.succ_pos _))
+  refine ⟨hp, ?_, ?_⟩
+  · intro ⟨h0, ha, _⟩
+    rcases hp with hp | hp
+    · simp [S.anyReady, hp] at ha
+    · omega
+  · intro hpc hcl
+    exact ⟨leave s2 .shutdown, by simp [fire, hpc, pickEv, hcl], rfl, rfl⟩
+
+/-- … and in state Closed there is nothing left to stop: Run has returned -/
+theorem C20_closed_means_run_returned (v : Variant) (s : S) (h : Reachable v s) (hst : s.st = .closed) :
+    s.pc = .done ∧ s.ret.isSome = true := by
+  have hi := inv_reachable h
+  have hd : s.pc = .done := hi.closedDone (by simpa [S.core] using hst)
+  exact ⟨hd, hi.retDone.2 (by simpa [S.core] using hd)⟩
+
+/-- non-vacuity: `Shutdown()` BEFORE `Run` is called — the collector starts, reaches Running, its first select takes the
+shutdown branch, ends Closed -/
+example : (run .fixed [.call, .close, .begin, .step true, .step true, .step true, .step true, .pick .shutdown,
+    .step true, .step true, .step true, .step true]).map (fun s => (s.st, s.ret, s.sdLog, s.provSd, s.req)) =
+    some (.closed, some true, [1], 1, false) := by decide
+
+/-- how notifications and fatal errors get onto the channels the select reads (regenerated shape facts): the resolver's
+`onChange` is a BLOCKING send (what `post watchOk/watchErr` = "outstanding until received" and `C20_watch_error_never_lost`
+assume — a `select … default` here is round-7 seed 1); the host hands a component's FatalError over from a goroutine that
+gives up at `host.Done` (what `Label.fatal` / `Label.giveUp` model — a plain send here is the host before cbd17a389,
+`C20_run_returns_unrepaired_host_fails`) -/
+theorem C20_channel_hand_overs_match_source :
+    Gen.CollectorFsm.watcherSend = "blocking" ∧ Gen.CollectorFsm.fatalHandover = "goroutine-select-done" := by decide
+
+
+/-! ## Round 2 (second session): liveness under an EXPLICIT fairness hypothesis ("… and Run returns")
+
+So far "Run returns" was `C20_stop_returns` (the shutdown path, ≤ 4 statements) plus enabledness lemmas, with fairness left
+informal. Here the hypothesis is a predicate: `RunMaximal v s` — the history was not cut short while the Run goroutine
+could still move (the scheduler is fair to it, the select takes some ready branch) — and "finite history of external
+events" is the finiteness of the label list. The ranking function `mu` (`Lemmas/C20Live.lean`) makes it a theorem, for
+every interleaving, any number of reloads, any failure assignment. What stays an assumption: every call the Run goroutine
+makes returns (it is a `step`), as before. -/
+
+/-- **Bounded work.** Along ANY history from any state, the number of labels the Run goroutine executes is at most
+`mu s` + 8 per reload trigger that arrives (SIGHUP / config change entering its channel) + 5 for the call of Run: the
+goroutine cannot spin, and only a new reload trigger gives it more to do. -/
+theorem C20_run_goroutine_work_is_bounded (v : Variant) (s s' : S) (ls : List Label) (h : runFrom v s ls = some s') :
+    runCount ls ≤ mu s + gainSum ls := by
+  have := mu_runFrom v ls h
+  omega
+
+/-- **Liveness under fairness.** In a reachable state in which the Run goroutine cannot move any more, Run was never called,
+or has returned, or waits in the select with nothing ready — there is no other place to get stuck. -/
+theorem C20_liveness_under_fairness (v : Variant) (s : S) (hm : RunMaximal v s) :
+    s.pc = .idle ∨ s.pc = .done ∨ (s.pc = .select ∧ s.anyReady = false) :=
+  runMaximal_rest v s hm
+
+/-- **A stop request under fairness ⇒ Run returns, Closed.** From any reachable state in which Run has been called and the
+shutdown channel is closed or the context is cancelled: every history (any interleaving with any further events) that is
+not cut short while the Run goroutine can move ends with Run returned; and if it left the loop through a stop branch, in
+state Closed with the providers shut down exactly once, nothing live and every created service shut down exactly once. -/
+theorem C20_stop_request_under_fairness_returns (v : Variant) (s s' : S) (ls : List Label) (hr : Reachable v s)
+    (hpc : s.pc ≠ .idle) (hstop : s.chanClosed = true ∨ s.ctxDone = true)
+    (h : runFrom v s ls = some s') (hm : RunMaximal v s') :
+    s'.pc = .done ∧ s'.ret.isSome = true ∧
+    (∀ e, s'.stop = some e → s'.st = .closed ∧ s'.provSd = 1 ∧ s'.live = [] ∧ ∀ g ∈ s'.created, s'.sdLog.count g = 1) := by
+  obtain ⟨k1, k2, k3⟩ := sticky_runFrom v ls h
+  have hr' : Reachable v s' := by
+    obtain ⟨ls0, h0⟩ := hr
+    exact ⟨ls0 ++ ls, by
+      show runFrom v init (ls0 ++ ls) = some s'
+      rw [runFrom_append]
+      have : runFrom v init ls0 = some s := h0
+      simp [this, h]⟩
+  have hd : s'.pc = .done := by
+    rcases runMaximal_rest v s' hm with h1 | h1 | ⟨_, h1⟩
+    · exact absurd h1 (k3 hpc)
+    · exact h1
+    · exfalso
+      rcases hstop with hs | hs
+      · simp [S.anyReady, k1 hs] at h1
+      · simp [S.anyReady, k2 hs] at h1
+  have hret : s'.ret.isSome = true := (inv_reachable hr').retDone.2 (by simpa [S.core] using hd)
+  refine ⟨hd, hret, ?_⟩
+  intro e he
+  obtain ⟨_, _, a, b, c, d, _⟩ := C20_ends_closed v s' hr' e he hret
+  exact ⟨a, b, c, d⟩
+
+/-- the fairness hypothesis can always be met (it is not vacuous): from every state there is a continuation consisting of at
+most `mu s` labels of the Run goroutine alone after which it cannot move — so with `C20_run_goroutine_work_is_bounded`: a fair
+scheduler reaches such a state after finitely many steps whenever the external events are finitely many -/
+theorem C20_fair_completion_exists (v : Variant) (s : S) :
+    ∃ ls s', (∀ l ∈ ls, l.isRun = true) ∧ ls.length ≤ mu s ∧ runFrom v s ls = some s' ∧ RunMaximal v s' :=
+  fair_completion v (mu s) s (Nat.le_refl _)
+
+/-- non-vacuity: Running with two SIGHUPs pending and the shutdown channel closed — `mu` = 8·2 + 5 = 21 bounds the work left;
+the worst-case fair schedule (both reloads first) uses 19 labels and ends returned and Closed -/
+example : (run .fixed [.begin, .step true, .step true, .step true, .step true, .post .hup, .post .hup, .call, .close]).map mu = some 21 ∧
+    (run .fixed ([.begin, .step true, .step true, .step true, .step true, .post .hup, .post .hup, .call, .close] ++
+      [.pick .hup] ++ List.replicate 6 (.step true) ++ [.pick .hup] ++ List.replicate 6 (.step true) ++
+      [.pick .shutdown] ++ List.replicate 4 (.step true))).map (fun s => (s.pc, s.st, mu s)) = some (.done, .closed, 0) := by decide
+
 
 end OtelVerif.C20
